@@ -313,14 +313,16 @@ fn run_check(id: &str, args: &Args) -> i32 {
         }
         "C07" => {
             let agg = comp::run_cases("C07", "c07", comp::c07_cases(&args.tier), comp::c07_case, args.threads);
-            finish(comp_outcome(
-                "C07",
+            let b = spec_outcome(checks::c07_cache(&args.tier, model::Flavor::Sync), args, t0, args.secs);
+            let a = comp_outcome(
+                "C07-policy",
                 args,
                 agg,
                 "real LFUPolicy::add (driven without its worker thread): residents n in 0..=7, cost vectors {1,3}^n, popularity vectors {0,1,3}^n built by real increments (all for n<=5 quick / n<=6 thorough, structured subsets above), max_cost in {sum-1 (over budget), sum, sum+1}, incoming cost {1,3,5}, incoming hits 0..=4; every sampling round is observed (cfg-guarded observer) and checked against the actual estimates read from the real sketch; non-trivial = at least one sampling round ran",
                 t0,
                 &["popularity estimates are read from the real sketch (1024 counters, no collisions among the <=8 keys used), so estimator collisions cannot cause false alarms", "phantom re-samples of an already evicted candidate are tolerated (they evict nothing)"],
-            ))
+            );
+            finish(merge("C07", vec![a, b], t0))
         }
         "C01" => run_spec(checks::c01(&args.tier, model::Flavor::Sync), args, t0),
         "C02" => run_spec(checks::c02(&args.tier, model::Flavor::Sync), args, t0),
